@@ -54,14 +54,11 @@ fn pipe_free(w: usize, k: usize) -> (i64, i64, bool) {
     let at_drop = pulled.load(Ordering::SeqCst);
     drop(pipe);
     let threads: Vec<usize> = (0..w).collect();
-    let exited = ctl.wait_exited(&threads, 2000);
+    // generous on purpose: a loaded machine must not turn a slow exit into an alarm
+    let exited = ctl.wait_exited(&threads, 15_000);
     // a worker that never stops would keep pulling: give it a moment to show
     std::thread::sleep(Duration::from_millis(3));
     let after = pulled.load(Ordering::SeqCst) - at_drop;
-    if exited != w {
-        // do not let leaked workers disturb the next case
-        ctl.wait_exited(&threads, 8000);
-    }
     text_utils::verif::install(None);
     (ahead as i64, after as i64, exited == w)
 }
@@ -84,12 +81,9 @@ fn buffered_free(cap: usize, k: usize) -> (i64, i64, bool) {
     }
     let at_drop = pulled.load(Ordering::SeqCst);
     drop(buf);
-    let exited = ctl.wait_exited(&[0], 2000);
+    let exited = ctl.wait_exited(&[0], 15_000);
     std::thread::sleep(Duration::from_millis(3));
     let after = pulled.load(Ordering::SeqCst) - at_drop;
-    if exited != 1 {
-        ctl.wait_exited(&[0], 8000);
-    }
     text_utils::verif::install(None);
     (ahead as i64, after as i64, exited == 1)
 }
@@ -165,7 +159,7 @@ fn run_child(w: usize, n: usize, p: usize, scenario: usize) -> bool {
         match child.try_wait() {
             Ok(Some(st)) => return st.code() != Some(3),
             Ok(None) => {
-                if t0.elapsed() > Duration::from_secs(5) {
+                if t0.elapsed() > Duration::from_secs(20) {
                     let _ = child.kill();
                     let _ = child.wait();
                     return false;
